@@ -4,7 +4,7 @@ from tools import vlib, corr, gen
 
 RULE = ('parsel layer: yaml.parser.Parser driven by a stub token source vs Model/ParseL.v (the model of the parser-safety theorems) on all token lists over 26 token variants up to length 2 (thorough 3) between STREAM-START and STREAM-END, grammar-shaped and mutated longer lists and undelimited lists (events, marks, error marks, crash class). '
         'malformed-input stream: repo corpus + character mutants + truncations + grammar-generated documents + every escape form (\\x \\u \\U incl. out-of-range, unknown, '
-        'truncated) + directive forms + nesting up to 200 + byte-level mutants of UTF-8/UTF-16 encodings with and without BOM; delivered as str, bytes, text and byte streams '
+        'truncated) + directive forms + non-ASCII digits / letters / spaces at every place where the scanner tests a character class + nesting up to 200 + byte-level mutants of UTF-8/UTF-16 encodings with and without BOM; delivered as str, bytes, text and byte streams '
         'with random read schedules. Correspondence (outcome class incl. the class of any non-YAML exception must equal the Coq model): reader, scan, parse, compose+construct '
         'layers. Direct on the implementation: scan / parse / compose_all with SafeLoader and CSafeLoader under a 20 s watchdog: result or YAMLError only, error marks inside '
         'the input. non-trivial = non-empty input; distinct by (form, payload)')
@@ -14,9 +14,18 @@ ESCAPES = ['"\\x41"', '"\\x4"', '"\\xZZ"', '"\\u263A"', '"\\u26"', '"\\uD800"', 
            '%YAML', '%YAML 1', '%YAML 1.', '%YAML 1.x', '%YAML 1.1 x', '%YAML 1.1\n%YAML 1.1\n---', '%YAML 2.0\n---', '%YAML 01.1\n--- a', '%TAG', '%TAG !', '%TAG ! x', '%TAG !a x\n---', '%TAG !a! !b\n%TAG !a! !c\n---', '%FOO  bar baz\n---', '%\n',
            '%YAML 1.' + '1' * 4299 + '\n---', '%YAML 1.' + '1' * 5000 + '\n---', '? ', '? a\n? b', ': ', '- - - -', '[' * 200 + ']' * 200, '{a: ' * 150, '- ' * 200 + 'a', '\t', 'a:\tb', '-\ta', 'a: |\n\tb', '@', '`', '--- ---', '... ...', '---\n...\n---', 'a: b: c', 'a\n  b:\n c', '[a, b', '{a: b', 'a: ]', ',', '}', ']']
 
+# characters that Python's str predicates (isdigit / isdecimal / isalnum / isalpha / isspace / int()) accept although the YAML productions are ASCII-only,
+# placed where the scanner tests a character class: directive numbers and names, anchors, tag handles and URIs, block scalar headers, escapes, indentation
+LOOKALIKE = ['\u00b2', '\u0663', '\uff11', '\u2460', '\u00e9', '\uff21', '\u2003', '\u00a0', '\u1680', '\u0661\u0662']
+SLOTS = ['%YAML 1.1@\n--- a\n', '%YAML 1@.1\n--- a\n', '%YAML @.1\n--- a\n', '%YAML 1.@\n--- a\n', '%YAML@1.1\n--- a\n', '%YA@ML 1.1\n---\n', '%TAG !e@! tag:x\n--- !e@!a b\n', '%TAG !e! tag:x@\n--- !e!a b\n',
+         '--- &a@ x\n', '- &a@b x\n- *a@b\n', '- &@ x\n', '--- !t@ x\n', '--- !!s@tr x\n', '--- !<tag:@> x\n', '--- !e%4@ x\n', '--- |@\n  t\n', '--- |1@\n  t\n', '--- >@-\n  t\n',
+         '"\\x4@"', '"\\u00@1"', '"\\U0000004@"', 'a:@b\n', 'a: b@# c\n', '-@a\n', '?@a\n:@b\n', '[a,@b]', "'a'@: b\n", 'k: |\n@ text\n', 'a: 1\n@b: 2\n']
+def lookalikes():
+    return [t.replace('@', c) for t in SLOTS for c in LOOKALIKE]
+
 def cases(ctx, n):
     rng = ctx.rng; out = []
-    texts = list(ESCAPES) + gen.mutated_corpus(rng, n)
+    texts = list(ESCAPES) + lookalikes() + gen.mutated_corpus(rng, n)
     # plain scalars that look like a number for a long time and then are not one (type regexes must give up without backtracking)
     for body in ('1' * 45, '4' + '0123456789' * 5, '1_000' * 9, '0x' + 'F' * 40, '0b' + '10' * 25, '0' + '7' * 40, '1' + ':59' * 15, '3.' + '14' * 20, '1e' + '9' * 40, '2001-12-14t21:59:43.' + '1' * 40, '-' * 40, 'y' * 40):
         for tail in ('A', '-7', '_', ':x', ' #c', '.'):
